@@ -7,8 +7,11 @@
 (* never finish.  Requests go into a bounded broadcast channel (capacity   *)
 (* Cap); since the F19 repair only the first request is sent.  The timeout *)
 (* task sends TimedOut through the same path at time T; the run returns    *)
-(* the oldest retained status (or Exited when all senders are gone); an    *)
-(* outer timeout at T + 1 returns TimedOut.  Time: ticks 0..T+1.           *)
+(* the oldest retained status; an outer timeout at T + 1 returns TimedOut. *)
+(* (Exited-because-all-senders-are-gone exists only in runs without a      *)
+(* timeout: the timer task of a timed run keeps the channel open, so a     *)
+(* timed run in which nobody asks ends TimedOut even with no machine at    *)
+(* all.  Every run modelled here is timed.)  Time: ticks 0..T+1.           *)
 (***************************************************************************)
 EXTENDS Integers, Sequences, FiniteSets, TLC
 CONSTANTS Procs, Behaviour,   \* Behaviour \in [Procs -> {"finish", "frame", "req", "hang"}]
@@ -45,10 +48,6 @@ TimeoutFire == /\ now = T /\ returned = <<>> /\ ~\E i \in 1..Len(reqlog) : reqlo
 Return == /\ returned = <<>> /\ chan # <<>>
           /\ returned' = <<Head(chan), now>>
           /\ UNCHANGED <<pc, now, chan, requested, frames, lost, reqlog>>
-ReturnExited == /\ returned = <<>> /\ chan = <<>> /\ \A p \in Procs : pc[p] = "done"
-                /\ ~\E i \in 1..Len(reqlog) : TRUE
-                /\ returned' = <<"Exited", now>>
-                /\ UNCHANGED <<pc, now, chan, requested, frames, lost, reqlog>>
 OuterTimeout == /\ returned = <<>> /\ now = T + 1
                 /\ returned' = <<"TimedOut", now>>
                 /\ UNCHANGED <<pc, now, chan, requested, frames, lost, reqlog>>
@@ -57,12 +56,12 @@ Tick == /\ now < T + 1 /\ returned = <<>> /\ chan = <<>>
         /\ (now = T => \E i \in 1..Len(reqlog) : reqlog[i][1] = "timeout")
         /\ now' = now + 1
         /\ UNCHANGED <<pc, chan, requested, frames, returned, lost, reqlog>>
-Next == (\E p \in Procs : Arrive(p) \/ Release(p) \/ Post(p)) \/ TimeoutFire \/ Return \/ ReturnExited \/ OuterTimeout \/ Tick
+Next == (\E p \in Procs : Arrive(p) \/ Release(p) \/ Post(p)) \/ TimeoutFire \/ Return \/ OuterTimeout \/ Tick
 Spec == Init /\ [][Next]_vars
 \* C13 ---------------------------------------------------------------------
 Barrier == \A f \in frames : f[3]                         \* every frame was sent after all protocols had arrived
 First == IF reqlog = <<>> THEN "none" ELSE IF reqlog[1][1] = "timeout" THEN "TimedOut" ELSE reqlog[1][1]
-Status == returned # <<>> => (returned[1] = First \/ (First = "none" /\ returned[1] \in {"Exited", "TimedOut"}))
+Status == returned # <<>> => returned[1] = (IF First = "none" THEN "TimedOut" ELSE First)
 Bound == returned # <<>> => returned[2] <= T + 1
 NoHangForever == (~ENABLED Next) => returned # <<>>
 =============================================================================
